@@ -31,7 +31,7 @@ ASSUMPTIONS = [
 ]
 PROFILE = {
     "quick": dict(examples=1600, shards=16, budget_s=80),
-    "thorough": dict(examples=8000, shards=16, budget_s=1100),
+    "thorough": dict(examples=16000, shards=16, budget_s=1100),
 }
 
 CLF_ENCODINGS = ["float10_nan", "int_m1", "int_99", "obj_none", "str_zz",
